@@ -156,6 +156,51 @@ fn nontrivial(shape: &[usize]) -> bool {
     total % 2 == 1 || shape.iter().any(|&n| n == 1) || shape.len() >= 3
 }
 
+/// `sfs fold` with every option it has, the input in either format over a given transport, the output
+/// on stdout or in a file: the folded values must not depend on the route.
+fn eval_route(shape: &[usize], fill_i: usize, precision: usize, npy_in: bool, transport: usize, sink_file: bool, scratch: &Scratch) -> Option<Viol> {
+    use crate::cli::{run_sfs_transport, Transport};
+    let fills: [(&str, f64); 4] = [("nan", f64::NAN), ("zero", 0.0), ("minus-one", -1.0), ("inf", f64::INFINITY)];
+    let (fname, fill) = fills[fill_i];
+    let x = labeled(shape, "lin");
+    let (bytes, suffix) = if npy_in {
+        let data: Vec<u8> = x.data.iter().flat_map(|v| v.to_le_bytes()).collect();
+        (crate::npyref::synth(1, &crate::npyref::dict_text("<f8", false, &x.shape, &crate::npyref::Spelling::numpy()), &data), ".npy")
+    } else {
+        (text_of(&x).into_bytes(), ".sfs")
+    };
+    let ps = precision.to_string();
+    let out_path = scratch.path(".route.sfs");
+    let mut a: Vec<&str> = vec!["fold", "--fill", fname, "--precision", &ps];
+    if sink_file {
+        a.extend(["--output", out_path.to_str().unwrap()]);
+    }
+    let tr = Transport::ALL[transport];
+    let mut o = run_sfs_transport(&a, &bytes, tr, suffix, scratch);
+    let mut problem = None;
+    if sink_file {
+        if o.ok() && !o.stdout.is_empty() {
+            problem = Some(format!("wrote {} bytes to stdout although --output was given", o.stdout.len()));
+        }
+        o.stdout = std::fs::read(&out_path).unwrap_or_default();
+        let _ = std::fs::remove_file(&out_path);
+    }
+    let expect = x.fold(fill);
+    if problem.is_none() {
+        problem = match parse_out(&o) {
+            Ok(got) if got.shape == expect.shape && got.data.len() == expect.data.len() && got.data.iter().zip(&expect.data).all(|(g, e)| printed_ok(*g, *e, precision)) => None,
+            other => Some(format!("gave {other:?}, expected {:?}", expect.data)),
+        };
+    }
+    problem.map(|w| {
+        (
+            format!("C05|cli|fold-route|{}|{}", if npy_in { "npy-in" } else { "text-in" }, if sink_file { "--output" } else { "stdout" }),
+            format!("sfs fold --fill {fname} --precision {precision} on shape {shape:?} given as {} over {tr:?}, output to {}: {w}", if npy_in { "npy" } else { "text" }, if sink_file { "a file" } else { "stdout" }),
+            J::obj([("kind", J::s("c05-route")), ("shape", J::usizes(shape)), ("fill", J::u(fill_i)), ("precision", J::u(precision)), ("npy_in", J::Bool(npy_in)), ("transport", J::u(transport)), ("sink_file", J::Bool(sink_file))]),
+        )
+    })
+}
+
 fn eval_cli(shape: &[usize], labeling: &str, fname: &str, fill: f64, scratch: &Scratch) -> Vec<Viol> {
     let x = labeled(shape, labeling);
     let input = text_of(&x);
@@ -284,6 +329,64 @@ pub fn run(tier: Tier) -> i32 {
         extra: vec![],
     });
 
+    // unfold histories: one folded value (and a clone of it) turned into a spectrum twice, for every
+    // ordered pair of fill values - the second result must not remember the first fill
+    {
+        let ushapes: Vec<Vec<usize>> = shapes(4, 1, 7, tier.pick(30, 52));
+        let fills: [(&str, f64); 4] = [("nan", f64::NAN), ("zero", 0.0), ("minus-one", -1.0), ("inf", f64::INFINITY)];
+        let ures = par_map(ushapes.len(), |si| {
+            let sh = &ushapes[si];
+            let x = labeled(sh, "lin");
+            let mut viols: Vec<Viol> = Vec::new();
+            let mut n = 0u64;
+            for (i1, (n1, f1)) in fills.iter().enumerate() {
+                for (i2, (n2, f2)) in fills.iter().enumerate() {
+                    for via_clone in [false, true] {
+                        n += 1;
+                        let expect = x.fold(*f2);
+                        let got = catch(|| {
+                            let folded = scs_from_ref(&x).fold();
+                            let _first = folded.into_spectrum(*f1);
+                            if via_clone {
+                                ref_from_spectrum(&folded.clone().into_spectrum(*f2))
+                            } else {
+                                ref_from_spectrum(&folded.into_spectrum(*f2))
+                            }
+                        });
+                        match got {
+                            Ok(g) if same_arr(&g, &expect) => {}
+                            other => {
+                                if viols.len() < 3 {
+                                    viols.push((
+                                        format!("C05|lib|unfold-depends-on-earlier-unfold|{}", shape_class(sh)),
+                                        format!("fold of shape {sh:?}: into_spectrum({n1}) and then {}into_spectrum({n2}) on the same folded value gives {:?}, expected {:?}", if via_clone { "clone()." } else { "" }, other.map(|g| g.data), expect.data),
+                                        J::obj([("kind", J::s("c05-unfold")), ("shape", J::usizes(sh)), ("first", J::u(i1)), ("second", J::u(i2)), ("via_clone", J::Bool(via_clone))]),
+                                    ));
+                                }
+                            }
+                        }
+                    }
+                }
+            }
+            (n, viols)
+        });
+        let mut ev = 0;
+        for (n, v) in ures {
+            ev += n;
+            for (k, w, j) in v {
+                rep.violation(k, w, j);
+            }
+        }
+        rep.transitions += 2 * ev;
+        rep.part(Part {
+            name: "lib: unfold after unfold (histories on one folded value)".into(),
+            evaluations: ev,
+            nontrivial: ev,
+            note: format!("{} shapes x every ordered pair of the 4 fills x {{same value, clone}}: the second into_spectrum(fill) gives the reference fold for its own fill", ushapes.len()),
+            exhaustive: true,
+            extra: vec![],
+        });
+    }
     // call histories: fold(A) then fold(B) on one thread, for every ordered pair of shapes - a fold
     // must not depend on what was folded before it (scratch tables, caches keyed too coarsely)
     let hshapes: Vec<Vec<usize>> = shapes(4, 1, 7, tier.pick(30, 52));
@@ -414,12 +517,65 @@ pub fn run(tier: Tier) -> i32 {
             extra: vec![],
         });
     }
+    // every fold option x input format x transport x sink
+    {
+        let mut rj: Vec<(Vec<usize>, usize, usize, bool, usize, bool)> = Vec::new();
+        for sh in [vec![5usize], vec![3, 4], vec![2, 3, 2]] {
+            for fill_i in 0..4usize {
+                for precision in [0usize, 6, 12] {
+                    for npy_in in [false, true] {
+                        for t in 0..crate::cli::Transport::ALL.len() {
+                            for sink_file in [false, true] {
+                                rj.push((sh.clone(), fill_i, precision, npy_in, t, sink_file));
+                            }
+                        }
+                    }
+                }
+            }
+        }
+        let res = par_map(rj.len(), |i| eval_route(&rj[i].0, rj[i].1, rj[i].2, rj[i].3, rj[i].4, rj[i].5, &scratch));
+        for v in res.into_iter().flatten() {
+            rep.violation(v.0, v.1, v.2);
+        }
+        rep.part(Part {
+            name: "cli: fold options x input format x transport x sink".into(),
+            evaluations: rj.len() as u64,
+            nontrivial: rj.len() as u64,
+            note: "3 shapes x 4 fills x precision {0,6,12} x input text / npy x {stdin file, stdin pipe, path, FIFO, /dev/stdin} x {stdout, --output file}: every printed value against the reference fold".into(),
+            exhaustive: true,
+            extra: vec![],
+        });
+    }
     // `fold --output FILE` onto a fresh path and onto a longer existing file: the file must hold exactly what stdout would
     {
         let mut oj: Vec<(Vec<usize>, bool)> = Vec::new();
         for s in [vec![5usize], vec![3, 4], vec![2, 3, 2]] {
             for stale in [false, true] {
                 oj.push((s.clone(), stale));
+            }
+        }
+        // in place: the input file named as the output
+        for s in [vec![5usize], vec![3, 4], vec![2, 3, 2]] {
+            for npy_in in [false, true] {
+                let x = labeled(&s, "lin");
+                let bytes = if npy_in {
+                    let data: Vec<u8> = x.data.iter().flat_map(|v| v.to_le_bytes()).collect();
+                    crate::npyref::synth(1, &crate::npyref::dict_text("<f8", false, &x.shape, &crate::npyref::Spelling::numpy()), &data)
+                } else {
+                    text_of(&x).into_bytes()
+                };
+                let to_stdout = run_sfs(&["fold", "--fill", "zero"], Stdin::Bytes(&bytes), &scratch);
+                let path = scratch.file(if npy_in { ".inplace.npy" } else { ".inplace.sfs" }, &bytes);
+                let o = run_sfs(&["fold", "--fill", "zero", "--output", path.to_str().unwrap(), path.to_str().unwrap()], Stdin::Null, &scratch);
+                let written = std::fs::read(&path).unwrap_or_default();
+                let _ = std::fs::remove_file(&path);
+                if !(o.ok() && to_stdout.ok() && written == to_stdout.stdout) {
+                    rep.violation(
+                        format!("C05|cli|fold-output-file-differs|in-place|{}", if npy_in { "npy" } else { "text" }),
+                        format!("sfs fold --fill zero --output F F on shape {s:?} ({} input): {} {}; the file holds {:?}, stdout of the same fold is {:?}", if npy_in { "npy" } else { "text" }, o.status_str(), o.stderr_str().trim(), String::from_utf8_lossy(&written), to_stdout.stdout_str()),
+                        J::obj([("kind", J::s("c05-inplace")), ("shape", J::usizes(&s)), ("npy_in", J::Bool(npy_in))]),
+                    );
+                }
             }
         }
         let res = par_map(oj.len(), |i| {
@@ -449,9 +605,9 @@ pub fn run(tier: Tier) -> i32 {
         }
         rep.part(Part {
             name: "cli: sfs fold --output".into(),
-            evaluations: oj.len() as u64,
-            nontrivial: oj.len() as u64,
-            note: "3 shapes x {fresh path, longer pre-existing file}: the file must hold exactly the bytes the command prints without --output".into(),
+            evaluations: oj.len() as u64 + 6,
+            nontrivial: oj.len() as u64 + 6,
+            note: "3 shapes x {fresh path, longer pre-existing file, the input file itself (text and npy input)}: the file must hold exactly the bytes the command prints without --output".into(),
             exhaustive: true,
             extra: vec![],
         });
@@ -475,6 +631,32 @@ pub fn replay(case: &J) -> Option<Vec<String>> {
     let shape = case.get("shape")?.as_usizes()?;
     let lab = case.get("labeling").and_then(|l| l.as_str()).unwrap_or("lin").to_string();
     match case.get("kind")?.as_str()? {
+        "c05-route" => {
+            let scratch = Scratch::new("c05r");
+            let b = |k: &str| matches!(case.get(k), Some(J::Bool(true)));
+            return Some(
+                eval_route(&shape, case.get("fill")?.as_i64()? as usize, case.get("precision")?.as_i64()? as usize, b("npy_in"), case.get("transport")?.as_i64()? as usize, b("sink_file"), &scratch)
+                    .into_iter()
+                    .map(|(k, w, _)| format!("{k} :: {w}"))
+                    .collect(),
+            );
+        }
+        "c05-unfold" => {
+            let fills = [f64::NAN, 0.0, -1.0, f64::INFINITY];
+            let x = labeled(&shape, "lin");
+            let (f1, f2) = (fills[case.get("first")?.as_i64()? as usize], fills[case.get("second")?.as_i64()? as usize]);
+            let via_clone = matches!(case.get("via_clone"), Some(J::Bool(true)));
+            let expect = x.fold(f2);
+            let got = catch(|| {
+                let folded = scs_from_ref(&x).fold();
+                let _first = folded.into_spectrum(f1);
+                if via_clone { ref_from_spectrum(&folded.clone().into_spectrum(f2)) } else { ref_from_spectrum(&folded.into_spectrum(f2)) }
+            });
+            return Some(match got {
+                Ok(g) if same_arr(&g, &expect) => vec![],
+                other => vec![format!("C05|lib|unfold-depends-on-earlier-unfold :: {:?}", other.map(|g| g.data))],
+            });
+        }
         "c05-hist" => {
             let first = labeled(&case.get("first")?.as_usizes()?, "lin");
             let b = labeled(&shape, "lin");
